@@ -6,14 +6,16 @@ package auth
 //verif:stub github.com/tucats/ego/internal/util/strings.HashString = c25Hash
 //verif:stub github.com/tucats/ego/internal/cli/settings.GetBool = c25GetBool
 //verif:bound one stored user "bob" whose credential is the bcrypt form, the legacy hash form or the plaintext {..} form of an arbitrary password of up to 3 bytes; an arbitrary candidate password of up to 3 bytes; the user name spelled bob/Bob/BOB/other; permissions any subset of {logon, root, other}; plaintext passwords enabled or not; then a second validation with another arbitrary candidate after the legacy-to-bcrypt upgrade
-//verif:assume ideal hashes: bcrypt and the legacy hash are injective functions of the password whose outputs carry their own format marker (never mistaken for one another or for a plaintext form); the user store is the harness's in-memory store
-//verif:outside the real user stores (file/SQL: property C31), bcrypt's 72-byte truncation, passwords longer than the bound
+//verif:assume ideal hashes: bcrypt (of the first 72 bytes, refusing longer input when hashing, as documented) and the legacy hash are injective functions of the password whose outputs carry their own format marker (never mistaken for one another or for a plaintext form); the user store is the harness's in-memory store
+//verif:bound the same with passwords and candidates of 70 fixed bytes followed by 0..3 arbitrary bytes (around bcrypt's 72-byte limit)
+//verif:outside the real user stores (file/SQL: property C31), passwords outside the two length bands
 
 import (
 	"errors"
 	"strings"
 
 	"github.com/tucats/ego/internal/defs"
+	egostrings "github.com/tucats/ego/internal/util/strings"
 	sym "github.com/tucats/ego/internal/zzverif/sym"
 )
 
@@ -43,32 +45,54 @@ var c25Plaintext bool
 
 func c25GetBool(key string) bool { return key == defs.PlaintextPasswordSetting && c25Plaintext }
 func c25Hash(s string) string   { return "H:" + s }
+
+// bcrypt as documented: hashing refuses more than 72 bytes; comparison looks
+// at the first 72 bytes only.
 func c25BcryptGenerate(password []byte, cost int) ([]byte, error) {
+	if len(password) > 72 {
+		return nil, errors.New("bcrypt: password length exceeds 72 bytes")
+	}
 	return []byte("$2a$" + string(password)), nil
 }
 func c25BcryptCompare(hash, password []byte) error {
+	if len(password) > 72 {
+		password = password[:72]
+	}
 	if string(hash) == "$2a$"+string(password) {
 		return nil
 	}
 	return errors.New("mismatch")
 }
 
-func VerifC25_acceptedExactlyWhenMatching() {
-	if !sym.Symbolic() {
-		return // the ideal-hash stubs have no native twin; real-hash behaviour is exercised by the repository's own tests
-	}
-	real := sym.String("password", 3)
-	cand := sym.String("candidate", 3)
-	format := sym.Choice("format", 3)
-	stored := ""
+// c25Credential is the stored form of a password: built by the model hashes
+// under the engine and by the real bcrypt / SHA-256 code natively.
+func c25Credential(format int, real string) string {
 	switch format {
 	case 0:
-		stored = "$2a$" + real
+		h, err := HashPassword(real)
+		sym.Assume(err == nil)
+		return h
 	case 1:
-		stored = c25Hash(real)
+		return egostrings.HashString(real)
 	default:
-		stored = "{" + real + "}"
+		return "{" + real + "}"
 	}
+}
+
+func VerifC25_acceptedExactlyWhenMatching() {
+	c25Check(sym.String("password", 3), sym.String("candidate", 3), func() string { return sym.String("candidate2", 3) })
+}
+
+// VerifC25_longPasswords: the same around bcrypt's 72-byte limit. Passwords
+// are 70 fixed bytes followed by 0..3 arbitrary ones.
+func VerifC25_longPasswords() {
+	prefix := strings.Repeat("x", 70)
+	c25Check(prefix+sym.String("passwordTail", 3), prefix+sym.String("candidateTail", 3), func() string { return prefix + sym.String("candidate2Tail", 3) })
+}
+
+func c25Check(real, cand string, next func() string) {
+	format := sym.Choice("format", 3)
+	stored := c25Credential(format, real)
 	var perms []string
 	hasLogon, hasRoot := sym.Bool("logon"), sym.Bool("root")
 	if hasLogon {
@@ -95,7 +119,7 @@ func VerifC25_acceptedExactlyWhenMatching() {
 	sym.Assert(got == want, "ValidatePassword's answer is not (user exists, password matches the stored credential, logon or root permission held)")
 
 	// after a possible legacy -> bcrypt upgrade the accepted set is unchanged
-	cand2 := sym.String("candidate2", 3)
+	cand2 := next()
 	got2 := ValidatePassword(1, "bob", cand2)
 	matches2 := cand2 == real && cand2 != ""
 	if format == 2 && !c25Plaintext && store.writes == 0 {
